@@ -359,7 +359,7 @@ class PrecomputedCategoricalDissimilarity(CategoricalDissimilarity):
 
         @dissimilarity_dec
         def d_mat(unit1: np.ndarray, unit2: np.ndarray) -> float:
-            return matrix[np.int8(unit1[3]), np.int8(unit2[3])] * delta_empty
+            return matrix[np.int32(unit1[3]), np.int32(unit2[3])] * delta_empty
         return d_mat
 
     def d(self, unit1: 'Unit', unit2: 'Unit'):
